@@ -140,8 +140,10 @@ def dangling_links(blk):
         atoms = []
         for a, key in zip(item["atoms_idx"], item["keys"]):
             src = blk["atoms"][a % n]
+            # the atom number inside the block is part of what a dangling term refers to
             atoms.append({"key": key, "attrs": {"resname": src["resname"], "atype": src["type"],
-                                                "charge": src["charge"], "mass": src["mass"]}})
+                                                "charge": src["charge"], "mass": src["mass"],
+                                                "index": a % n + 1}})
         uniq = {}
         for at in atoms:
             uniq[at["key"]] = at
@@ -163,6 +165,8 @@ def link_pattern(lnk):
         if not lnk.get("all_edges"):
             if it["sec"] not in EDGE_SECTIONS_FF or is_improper(it):
                 continue
+        if it["meta"].get("edge") is False:
+            continue          # flagged as making no edge by itself
         ks = it["atoms"]
         for a, b in zip(ks[:-1], ks[1:]):
             if a != b:
@@ -258,7 +262,7 @@ def expected(spec, with_links=True):
             sel_resname = atom["resname"] if from_itp else fn["resname"]
             resname = atom["resname"]
             attrs = {"atomname": atom["name"], "atype": atom["type"], "resname": sel_resname,
-                     "charge": atom["charge"], "mass": atom["mass"]}
+                     "charge": atom["charge"], "mass": atom["mass"], "index": local + 1}
             attrs.update(fn.get("attrs", {}))
             model.atoms.append({"name": atom["name"], "type": atom["type"], "resid": fn["resid"],
                                 "resname": resname, "charge": atom["charge"], "mass": atom["mass"],
